@@ -8,6 +8,9 @@ import c04
 
 CONFIGS = ['prod']
 EXPLANATION = (
+    'SEM (primary): HLCTimestamp::new interpreted with symbolic field bits gives the word layout (tiling, significance order), every accessor hands back ex'
+    'actly its field bits, identities, the fraction round-trips at the division constant; E3 reader by interpretation (piece -> radix -> type -> field). St'
+    'ructural fallback / remaining clauses: '
     'Decided clauses: E1 bit-exact layout agreement between the packer and every accessor by abstract interpretation over 64 abstract '
     'bits (fields tile the word without overlap or gap; accessor∘pack is the identity on each field\'s full width; significance order '
     'seconds > fractional > counter > node; archived cast is the identity on the word); E2 the order is the derived order of the single '
